@@ -1,27 +1,43 @@
 ---------------------------- MODULE G1Findings ----------------------------
 (***************************************************************************)
 (* Narrow signatures of the OPEN known findings of the listing group.  A   *)
-(* failed clause is excused only when the whole difference between the     *)
-(* expected and the observed facts is explained by the finding's trigger   *)
-(* (computed here, from the pre-state and the requests); anything else of  *)
-(* the same property is still a VIOLATION.  Ids refer to                   *)
-(* /verif/known_findings.json.                                             *)
+(* failed clause is excused only when EVERY element of the difference      *)
+(* between the expected and the observed facts is explained by the trigger *)
+(* of an open finding (computed here from the pre-state, the requests and  *)
+(* the edited listing); anything else of the same property is still a      *)
+(* VIOLATION.  Ids refer to /verif/known_findings.json.                    *)
 (***************************************************************************)
-EXTENDS G1Clauses
+EXTENDS G1Cfg
 
 NextBlockU(pre, u) ==
   LET sec == SecOfBlock(pre, u)
       j == IdxInSec(sec, u)
   IN  IF j < Len(sec.blocks) THEN sec.blocks[j + 1].u ELSE 0
+PrevBlock(pre, u) ==
+  LET sec == SecOfBlock(pre, u)
+      j == IdxInSec(sec, u)
+  IN  IF j > 1 THEN sec.blocks[j - 1] ELSE NoBlock
 
 TouchesEnd(pre, reqs, u) ==
   LET b == BlockByU(pre, u)
   IN  \E i \in DOMAIN reqs : reqs[i].u = u /\ reqs[i].off + reqs[i].len = b.n
 
-\* KF-C02-1: no function tables; an end-of-block label of a block edited at
-\* its end is re-homed to the start of the next block (never re-joined:
-\* in_same_function(None, None) is False) and then follows that block to a
-\* proxy when it is deleted with retarget_to_proxy.
+HasFns(X) == X.t.pre.fns # <<>>
+
+UnitAt(X, nm, p) ==
+  LET c == {i \in DOMAIN X.E[nm] : X.E[nm][i].t = "unit" /\ X.E[nm][i].bk = "code" /\ X.P[nm][i] = p}
+  IN  IF c = {} \/ nm \notin DOMAIN X.E THEN BlankItem ELSE X.E[nm][CHOOSE i \in c : TRUE]
+ReqById(X, id) ==
+  LET c == SelectSeq(X.t.reqs, LAMBDA r : r.id = id)
+  IN  IF c = <<>> THEN [id |-> 0 - 1, op |-> "", u |-> 0, off |-> 0, len |-> 0, patch |-> [units |-> <<>>]] ELSE c[1]
+LastKind(b) == IF b.units = <<>> THEN "" ELSE b.units[Len(b.units)].k
+
+(***************************************************************************)
+(* KF-C02-1: no function tables; an end-of-block label of a block edited   *)
+(* at its end is re-homed to the start of the next block (never re-joined: *)
+(* in_same_function(None, None) is False) and then follows that block to a *)
+(* proxy when it is deleted with retarget_to_proxy.                        *)
+(***************************************************************************)
 KF_C02_1_Sym(X, name) ==
   \E b \in Range(AllBlocks(X.t.pre)) :
      /\ name \in Range(b.es)
@@ -32,14 +48,135 @@ KF_C02_1_Sym(X, name) ==
      /\ LabelsToProxy(X.t.pre, X.t.reqs, NextBlockU(X.t.pre, b.u))
      /\ name \in ObsProxied(X)
 
-KfTags(X, clause) ==
-  (IF /\ clause = "C02_Positions"
-      /\ ObsOrigSymFacts(X) \subseteq ExpOrigSymFacts(X)
-      /\ \A f \in ExpOrigSymFacts(X) \ ObsOrigSymFacts(X) : KF_C02_1_Sym(X, f.n)
-   THEN {"KF-C02-1"} ELSE {})
-  \cup
-  (IF /\ clause = "C02_Proxy"
-      /\ ExpProxied(X) \cup PreProxied(X) \subseteq ObsProxied(X)
-      /\ \A n \in ObsProxied(X) \ (ExpProxied(X) \cup PreProxied(X)) : KF_C02_1_Sym(X, n)
-   THEN {"KF-C02-1"} ELSE {})
+(***************************************************************************)
+(* CFG findings (all need function tables to be present)                   *)
+(* KF-C03-1  fallthrough edges are only preserved, never synthesized: no   *)
+(*           FT into a block whose original predecessor could not fall     *)
+(*           through (its jmp/ret was deleted, or code was put after it).  *)
+(* KF-C03-2  a patch that ends in jmp/ret/indirect jmp inserted inside a   *)
+(*           block: its empty continuation is joined and its fallthrough   *)
+(*           edge ends up on the terminator.                               *)
+(* KF-C03-3  a patch calling the function of the block it is inserted     *)
+(*           into, ahead of that block's ret: the new return edge is       *)
+(*           attached to the head of the split block.                      *)
+(* KF-C03-4  a ret created by a patch in a function without return edges   *)
+(*           to real return sites gets a proxy instead of the sites of the *)
+(*           calls to the function.                                        *)
+(* KF-C03-5  a patch with a ret that replaces a call, or is inserted right *)
+(*           after one: the ret's return edges are copied from the         *)
+(*           function before the edit, so sites the edit changes are stale *)
+(***************************************************************************)
+FirstSurvivingOfBlock(X, nm, p) ==
+  LET y == UnitAt(X, nm, p)
+  IN  /\ y.src = "orig"
+      /\ ~\E i \in DOMAIN X.E[nm] : X.E[nm][i].t = "unit" /\ X.E[nm][i].src = "orig"
+                                     /\ X.E[nm][i].u = y.u /\ X.P[nm][i] < p
+KF_C03_1_Edge(X, e) ==
+  /\ HasFns(X) /\ e.ty = "Fallthrough" /\ e.d[1] = "i"
+  /\ FirstSurvivingOfBlock(X, e.d[2], e.d[3])
+  /\ LastKind(PrevBlock(X.t.pre, UnitAt(X, e.d[2], e.d[3]).u)) \in {"jmp", "ijmp", "ret"}
+KF_C03_2_Edge(X, e) ==
+  /\ HasFns(X) /\ e.ty = "Fallthrough"
+  /\ LET x == UnitAt(X, e.s[1], e.s[2])
+     IN  x.src = "patch" /\ x.k \in {"jmp", "ijmp", "ret"}
+
+\* requests whose patch calls the function of the block they are inserted into
+RecursiveCallReqs(X, K) ==
+  {r \in Range(X.t.reqs) :
+     /\ r.op \in {"ins", "rep"}
+     /\ LET b == BlockByU(X.t.pre, r.u)
+        IN  /\ b.fn # <<>>
+            /\ \E j \in DOMAIN b.units : b.units[j].k = "ret" /\ b.units[j].o >= r.off + r.len
+            /\ \E u \in DOMAIN K.exp.res : u.it.src = "patch" /\ u.it.rid = r.id /\ u.it.k = "call"
+                                            /\ b.fn[1] \in Range(K.exp.res[u].fn)}
+KF_C03_3_Edge(X, K, e) ==
+  /\ HasFns(X) /\ e.ty = "Return"
+  /\ \E r \in RecursiveCallReqs(X, K) :
+        \/ UnitAt(X, e.s[1], e.s[2]).u = r.u          \* an edge leaving the split block
+        \/ \E u \in K.exp.units : u.it.src = "patch" /\ u.it.rid = r.id /\ u.it.k = "call"
+                                   /\ e.d = Succ(X, u)  \* an edge to the patch call's return site
+PreHasRealReturns(X, f) ==
+  \E i \in DOMAIN X.t.pre.edges :
+     /\ X.t.pre.edges[i].ty = "Return" /\ X.t.pre.edges[i].t[1] = "blk"
+     /\ f \in Range(SrcBlock(X.t.pre, X.t.pre.edges[i]).fn)
+KF_C03_4_Edge(X, e) ==
+  /\ HasFns(X) /\ e.ty = "Return"
+  /\ LET x == UnitAt(X, e.s[1], e.s[2])
+     IN  x.src = "patch" /\ x.k = "ret" /\ x.fn # <<>> /\ ~PreHasRealReturns(X, x.fn[1])
+KF_C03_5_Edge(X, e) ==
+  /\ HasFns(X) /\ e.ty = "Return"
+  /\ LET x == UnitAt(X, e.s[1], e.s[2])
+         r == ReqById(X, x.rid)
+         b == BlockByU(X.t.pre, r.u)
+     IN  /\ x.src = "patch" /\ x.k = "ret"
+         /\ \/ /\ r.op = "rep"
+               /\ \E j \in DOMAIN b.units : b.units[j].k = "call" /\ r.off <= b.units[j].o /\ b.units[j].o < r.off + r.len
+            \/ r.off = b.n /\ LastKind(b) = "call"     \* inserted right after a call: its return site moves
+
+\* KF-C03-7: return edges do not follow a call whose target block is deleted
+\* (the call slides to the next block or goes to the proxy, the returns stay).
+KF_C03_7_Edge(X, e) ==
+  /\ HasFns(X) /\ e.ty = "Return"
+  /\ LET x == UnitAt(X, e.s[1], e.s[2])
+     IN  /\ x.k = "ret" /\ x.src = "orig"
+         /\ \E b \in Range(AllBlocks(X.t.pre)) :
+               /\ WholeDeleted(X.t.pre, X.t.reqs, b.u)
+               /\ \E c \in Range(AllBlocks(X.t.pre)) :
+                     LastKind(c) = "call" /\ c.units[Len(c.units)].tg \in Range(b.ss)
+
+\* KF-C03-6: deleting a whole block that ends in a call to f drops f's return
+\* edge to the (slid) return site even when another call to f returns there.
+KF_C03_6_Edge(X, K, e) ==
+  /\ HasFns(X) /\ e.ty = "Return"
+  /\ LET x == UnitAt(X, e.s[1], e.s[2])
+     IN  /\ x.k = "ret" /\ x.fn # <<>>
+         /\ \E b \in Range(AllBlocks(X.t.pre)) :
+               /\ WholeDeleted(X.t.pre, X.t.reqs, b.u) /\ ~ToProxy(X.t.reqs, b.u)
+               /\ LastKind(b) = "call"
+               /\ LET cu == b.units[Len(b.units)]
+                      tb == {c \in Range(AllBlocks(X.t.pre)) : cu.tg \in Range(c.ss)}
+                  IN  \E c \in tb : x.fn[1] \in Range(c.fn)
+
+\* KF-C01-1: a patch that ends in a label, inserted at the end of a block that is
+\* not followed by code: the trailing empty block keeps the label and
+\* _cleanup_modified_blocks asserts (AssertionError).
+KF_C01_1(X) ==
+  /\ X.t.exc = "AssertionError"
+  /\ \E r \in Range(X.t.reqs) :
+        /\ r.op \in {"ins", "rep"}
+        /\ \E j \in DOMAIN r.patch.labels : r.patch.labels[j].o = r.patch.n
+        /\ LET b == BlockByU(X.t.pre, r.u)
+               nb == NextBlockU(X.t.pre, r.u)
+           IN  r.off + r.len = b.n /\ (nb = 0 \/ BlockByU(X.t.pre, nb).k # "code")
+
+Explained(X, K, clause, e) ==
+  (IF clause = "C03_Fallthrough" /\ KF_C03_1_Edge(X, e) /\ e \in K.exp.ft THEN {"KF-C03-1"} ELSE {})
+  \cup (IF clause = "C03_Fallthrough" /\ KF_C03_2_Edge(X, e) /\ e \notin K.exp.ft THEN {"KF-C03-2"} ELSE {})
+  \cup (IF clause = "C03_Returns" /\ KF_C03_4_Edge(X, e) THEN {"KF-C03-4"} ELSE {})
+  \cup (IF clause = "C03_Returns" /\ KF_C03_5_Edge(X, e) THEN {"KF-C03-5"} ELSE {})
+  \cup (IF clause = "C03_Returns" /\ KF_C03_7_Edge(X, e) THEN {"KF-C03-7"} ELSE {})
+  \cup (IF clause = "C03_Returns" /\ KF_C03_3_Edge(X, K, e) THEN {"KF-C03-3"} ELSE {})
+  \cup (IF clause = "C03_Returns" /\ KF_C03_6_Edge(X, K, e) THEN {"KF-C03-6"} ELSE {})
+
+SDiff(a, b) == (a \ b) \cup (b \ a)
+ExplainAll(X, K, clause, elems) ==
+  IF elems # {} /\ \A e \in elems : Explained(X, K, clause, e) # {}
+  THEN UNION {Explained(X, K, clause, e) : e \in elems} ELSE {}
+
+KfTags(X, K, clause) ==
+  CASE clause = "C02_Positions" ->
+         IF /\ ObsOrigSymFacts(X) \subseteq ExpOrigSymFacts(X)
+            /\ \A f \in ExpOrigSymFacts(X) \ ObsOrigSymFacts(X) : KF_C02_1_Sym(X, f.n)
+         THEN {"KF-C02-1"} ELSE {}
+    [] clause = "C02_Proxy" ->
+         IF /\ ExpProxied(X) \cup PreProxied(X) \subseteq ObsProxied(X)
+            /\ \A n \in ObsProxied(X) \ (ExpProxied(X) \cup PreProxied(X)) : KF_C02_1_Sym(X, n)
+         THEN {"KF-C02-1"} ELSE {}
+    [] clause = "C03_Fallthrough" ->
+         ExplainAll(X, K, clause, SDiff(K.exp.ft, ByType(K.obs, {"Fallthrough"})))
+    [] clause = "C03_Returns" ->
+         ExplainAll(X, K, clause, SDiff(K.exp.ret, ByType(K.obs, {"Return"})))
+    [] clause \in {"C01_Completes", "C03_Completes", "C05_Completes"} ->
+         IF KF_C01_1(X) THEN {"KF-C01-1"} ELSE {}
+    [] OTHER -> {}
 =============================================================================
